@@ -274,6 +274,14 @@ fn c10_scenario_x(name: &'static str, progs: Vec<Vec<COp>>, topic_initially: boo
                 _ => {}
             }
         }
+        // final observations, invoked after everything else has returned: what the names map to at quiescence must be the
+        // state some linearization of the history ends in (a request answered with an error must not have taken effect)
+        let fin_t = tryv!(cx.settle("final:get-topic", { let a = cx.api.clone(); async move { a.get_topic(T0).await } }).await);
+        let fin_s = tryv!(cx.settle("final:get-sub", { let a = cx.api.clone(); async move { a.get_sub(S0).await } }).await);
+        let fin = |c: Option<Code>| match c { None => O::Ok, Some(Code::NotFound) => O::NotFound, Some(_) => O::Other };
+        topic_ops.push((K::Get, fin(fin_t.as_ref().err().cloned()), u64::MAX - 1, u64::MAX));
+        sub_ops.push((K::Get, fin(fin_s.as_ref().err().cloned()), u64::MAX - 1, u64::MAX));
+        let key = format!("{} final:topic={} sub={}", key, fin_t.is_ok(), fin_s.is_ok());
         if !linearizable(&topic_ops, topic_initially) {
             return ScenarioOut::viol(format!("{}/topic-history-not-linearizable", name), format!("no order of the operations on {} that respects real time explains their results as a name->topic map: {}", T0, key));
         }
